@@ -28,8 +28,9 @@ PUSHES = {
     'unknown': ['9zz'],
     'msg': ['4solo'],
     'ping_msg': ['2p2', '4after-ping'],
+    'bin_empty': ['b', '4after-empty'],      # a binary MESSAGE with no bytes (an empty binary frame on WebSocket), then text
 }
-EXPECT_MSG = {'4t1': 't1', '4{"j":2}': {'j': 2}, 'bAAEC': b'\x00\x01\x02', '4solo': 'solo', '4after-ping': 'after-ping'}
+EXPECT_MSG = {'4t1': 't1', '4{"j":2}': {'j': 2}, 'bAAEC': b'\x00\x01\x02', '4solo': 'solo', '4after-ping': 'after-ping', 'b': b'', '4after-empty': 'after-empty'}
 SENDS = ['s-text', b'\xfe\xff', {'k': [1, 'v']}, 's-last']
 HANDLER_SENDS = ['hc-1', bytearray(b'\x01hc'), {'hc': 3}]       # a bytearray is binary data too
 IV, TO = 1.0, 1.0
